@@ -328,6 +328,46 @@ def alias_cases(ctx, r, lines, expect, speclines, meta):
             return
         emit(f"kcount {','.join(pk(o) for o in objs)} {pk(q)}", f'ok {int(c)} {idx} {state(v)}', 'alias:kcount')
     ctx.tick('alias count/index', len(cases))
+    # (c) object-level histories (aliases stored, NumPy scalars included; no tuples next to NumPy scalars: D23)
+    flat = [o for o in T if not isinstance(o, tuple)]
+    for _ in range(ctx.scale(300, 3000)):
+        v = Variables(); ref = []; toks = []; flags = ''; code = ['import numpy as np', 'from numpy import *', 'from dimod.variables import Variables', 'v = Variables()']
+        for _ in range(r.randint(1, 10)):
+            k = r.choice(['+', '+', '?', '?', '~', 'p', 'r', 'c'] if ref else ['+', '?', '~', 'p'])
+            ok = True
+            try:
+                if k in '+?':
+                    o = r.choice(flat); toks.append(k + pk(o)); code.append(f'try: v._append({o!r}, permissive={k == "?"})\nexcept ValueError: pass')
+                    want = canon_py(o) not in ref or k == '?'
+                    if canon_py(o) not in ref:
+                        ref.append(canon_py(o))
+                    v._append(o, permissive=(k == '?'))
+                elif k == '~':
+                    toks.append('+~'); code.append('v._append()'); n = len(ref)
+                    if ('i', n) in ref:
+                        n = 0
+                        while ('i', n) in ref:
+                            n += 1
+                    ref.append(('i', n)); want = True; v._append()
+                elif k == 'p':
+                    toks.append('p'); code.append('try: v._pop()\nexcept IndexError: pass'); want = bool(ref)
+                    if ref:
+                        ref.pop()
+                    v._pop()
+                elif k == 'r':
+                    toks.append('r'); code.append('v._relabel_as_integers()'); ref = [('i', i) for i in range(len(ref))]; want = True; v._relabel_as_integers()
+                else:
+                    toks.append('c'); code.append('v._clear()'); ref = []; want = True; v._clear()
+            except (ValueError, IndexError):
+                ok = False
+            flags += str(int(ok))
+            if ok != want or [canon_py(x) for x in v] != ref or len(v) != len(ref):
+                ctx.fail('property', 'Variables.aliases', 'history over alias objects', f'after {toks}: list(v)={list(v)!r}, raised={not ok}; labels should be {ref!r}, accepted={want}',
+                         repro='\n'.join(code) + f'\nassert [int(x) if not isinstance(x, str) else x for x in v] == {[c[1] for c in ref]!r}')
+                return
+        ctx.case(('khist', tuple(toks)), nontrivial=len(v) > 0)
+        emit('khist ' + ','.join(toks), f"ok {flags} {state(v)} {','.join(lab(x) for x in v)}", 'alias:khist')
+    ctx.tick('alias object histories', ctx.scale(300, 3000))
 
 
 def repro(hist):
